@@ -825,9 +825,9 @@ func RunLayer2(r *core.Run) {
 	r.Set("l2_distinct_failure_keys", len(firstOf))
 	r.Count("l2_evaluations", int64(executed))
 	r.Count("l2_calls", int64(executed))
-	r.Set("evaluations", executed)
-	r.Set("distinct_nontrivial", r.NDistinct("l2_triples"))
-	r.Set("rule", "layer 2: for every exported verifier/decoder one honest call, then every call with exactly one argument or proof component replaced by "+
+	r.Set("l2_evaluations_executed", executed) // c06.Run sums l2_calls into evaluations
+	r.Set("l2_distinct_triples", r.NDistinct("l2_triples")) // c06.Run adds NDistinct("l2_cases") to distinct_nontrivial
+	r.Set("l2_rule", "layer 2: for every exported verifier/decoder one honest call, then every call with exactly one argument or proof component replaced by "+
 		"each value of the component kind's boundary alphabet (numbers: 0,1,q-1,q,q+1,2q,N-1,N,N+1,N^2,2^k for k in {8,63,64,255,256,1023,1024,2047,2048,4095,4096}, "+
 		"a value of twice the honest byte width, the honest value with its low bit flipped; moduli additionally 2^k-1 and 2^k+1; points: (0,0), (0,1), the small-order "+
 		"points of edwards25519, a point of the other curve, an off-curve point, G, the negated honest point; lists: one/two too short, one too long, single element, empty non-nil), "+
